@@ -151,6 +151,8 @@ fn main() {
             // Un-minimised replay: re-execute run (seed, index) exactly.
             let r = run_one(&prop, sr["seed"].as_u64().unwrap_or(1), sr["run"].as_u64().unwrap_or(0));
             Ok(r.violation)
+        } else if doc["found"]["oracle"].as_str() == Some("simulated-vs-real") {
+            c15::replay_sim_vs_real(&prop, scn)
         } else {
             replay_one(&prop, scn)
         };
